@@ -176,7 +176,58 @@ def run_case(ctx, rng):
         ctx.record_violation('conservation', '; '.join(problems), payload={'kinds': kinds, 'rows': rows})
 
 
+def entry_point_layer(ctx):
+    """the entry points that numberify for the user - `beanquery.query.run_query(numberify=True)` and the shell's
+    `numberify` setting - give what numberify_results gives for the API result with the ledger's display formatter"""
+    import io
+    import os
+    import tempfile
+    import ledgers
+    from beanquery import query as bq_query, shell
+    rng = ctx.rng
+    text, entries, errors, options = ledgers.gen_ledger(rng, ntxn=14)
+    conn = ledgers.connect(entries, errors, options)
+    queries = ['SELECT account, sum(position) AS total GROUP BY account ORDER BY account',
+               'SELECT date, account, position, price, cost(position) AS c ORDER BY date, account',
+               "SELECT account, value(sum(position)) AS v, units(sum(position)) AS u GROUP BY account ORDER BY account",
+               'SELECT currency, amount FROM #prices', 'SELECT date, account, balance ORDER BY date, account']
+    path = os.path.join(tempfile.mkdtemp(prefix='bqv-c17-'), 'ledger.beancount')
+    with open(path, 'w') as f:
+        f.write(text)
+    for q in queries:
+        cur = conn.execute(q)
+        desc, rows = cur.description, cur.fetchall()
+        wdesc, wrows = numberify.numberify_results(desc, rows, options['dcontext'].build())
+        want = show_out(wdesc, wrows)
+        try:
+            gdesc, grows = bq_query.run_query(entries, options, q, numberify=True)
+            got = show_out(gdesc, grows)
+        except Exception as exc:  # noqa: BLE001
+            got = 'EXC:%s' % type(exc).__name__
+        ctx.evaluations += 1
+        ctx.count('entry-point:run_query')
+        ctx.nontrivial_hashes.add(hash(('run_query', q, text)))
+        if got != want:
+            ctx.record_violation('run_query-numberify-differs', '%s: run_query %s ... numberify_results %s' % (q, got[:300], want[:300]),
+                                 payload={'ledger': text, 'query': q})
+        # the shell with `.set numberify true` and csv output prints those cells
+        out = io.StringIO()
+        sh = shell.BQLShell(path, out, interactive=False, runinit=False)
+        sh.onecmd('.set numberify true')
+        sh.onecmd('.set format csv')
+        sh.onecmd(q)
+        ref = io.StringIO()
+        from beanquery import query_render
+        query_render.render_csv(wdesc, wrows, options['dcontext'], ref)
+        ctx.evaluations += 1
+        ctx.count('entry-point:shell')
+        if out.getvalue() != ref.getvalue():
+            ctx.record_violation('shell-numberify-differs', '%s: shell %r ... reference %r' % (q, out.getvalue()[:300], ref.getvalue()[:300]),
+                                 payload={'ledger': text, 'query': q})
+
+
 def run(ctx):
+    entry_point_layer(ctx)
     rng = ctx.rng
     for case in range(100000 if ctx.thorough() else 1200):
         if ctx.stop():
